@@ -134,3 +134,67 @@ Definition mrca_refreshes (enc : dict Z) (sid : Z) (updated : bool) : bool :=
 Definition tree_after (t : tree) (rooted : option bool) (refresh : bool) : tree :=
   if refresh && (negb (is_true rooted) && (nkids t =? 2)) then fst (collapse_basal t) else t.
 
+
+(* ---- summaries ---- *)
+(* the entry for (a, b) used by the summaries: path length in real units, or the step count *)
+Definition dval (t : tree) (weighted : bool) (a b : Z) : Q :=
+  if weighted then uq (match dist t a b with Some d => d | None => 0 end)
+  else inject_Z (match steps t a b with Some s => s | None => 0 end).
+
+(* normalisation: total tree length (all edges, the root's included) / number of nodes *)
+Definition nfac (t : tree) (weighted normalize : bool) : Q :=
+  if normalize then (if weighted then uq (total_length t) else inject_Z (Z.of_nat (size t))) else 1%Q.
+
+(* the taxa a row of the nearest-taxon statistic is compared with *)
+Definition others_of (filt : option (list Z)) (taxa : list Z) (a : Z) : list Z :=
+  filter (fun b => negb (Z.eqb a b) && passes filt b) taxa.
+
+(* minimum of a non-empty list *)
+Definition qmin_list (l : list Q) : Q := match l with [] => 0%Q | d0 :: r => min_from d0 r end.
+
+(* ---- UPGMA / NJ: what a pool of nodes represents ---- *)
+(* the stored distance (0 when there is no entry) *)
+Definition qdef (d : dict Q) (k : Z) : Q := match dget k d with Some v => v | None => 0%Q end.
+
+
+Definition uids (pool : list unode) : list Z := map u_id pool.
+
+(* well-formed pool: distinct nodes, every node knows its distance to every other node, clusters
+   are non-empty *)
+Definition uwf (pool : list unode) : Prop :=
+  NoDup (uids pool) /\
+  (forall u v, In u pool -> In v pool -> u_id u <> u_id v -> dmem (u_id v) (u_d u) = true) /\
+  (forall u, In u pool -> 0 < u_size u).
+
+
+Definition jids (pool : list jnode) : list Z := map j_id pool.
+Definition jd (u v : jnode) : Q := qdef (j_d u) (j_id v).
+Definition jothers (pool : list jnode) (u : jnode) : list jnode :=
+  filter (fun v => negb (Z.eqb (j_id v) (j_id u))) pool.
+
+(* well-formed pool: distinct nodes; every node stores its distance to every other node; the stored
+   distances are symmetric; _nj_xsub is the sum of the node's distances to all other nodes *)
+Definition jwf (pool : list jnode) : Prop :=
+  NoDup (jids pool) /\
+  (forall u v, In u pool -> In v pool -> j_id u <> j_id v -> dmem (j_id v) (j_d u) = true) /\
+  (forall u v, In u pool -> In v pool -> j_id u <> j_id v -> (jd u v == jd v u)%Q) /\
+  (forall u, In u pool -> (j_xsub u == qsum (map (jd u) (jothers pool u)))%Q).
+
+Definition qvalue (n : Z) (a b : jnode) : Q := (inject_Z (n - 2) * jd a b - j_xsub a - j_xsub b)%Q.
+
+
+(* (j0, j1) is a cherry of an additive metric: both hang on a common point v with pendant lengths
+   a0, a1, and mv k is the distance from v to every other node k *)
+Definition is_cherry (others : list jnode) (j0 j1 : jnode) (a0 a1 : Q) (mv : jnode -> Q) : Prop :=
+  (jd j0 j1 == a0 + a1)%Q /\
+  forall k, In k others -> (jd j0 k == a0 + mv k)%Q /\ (jd j1 k == a1 + mv k)%Q.
+
+
+(* ---- the matrix handed to nj_tree / upgma_tree ---- *)
+Definition mval (M : tbl Q) (a b : Z) : Q := match tget2 a b M with Some v => v | None => 0%Q end.
+
+(* every ordered pair of distinct taxa of `order` has an entry, and the entries are symmetric *)
+Definition mcomplete (M : tbl Q) (order : list Z) : Prop :=
+  forall a b, In a order -> In b order -> a <> b -> tget2 a b M <> None.
+Definition msymmetric (M : tbl Q) (order : list Z) : Prop :=
+  forall a b, In a order -> In b order -> a <> b -> (mval M a b == mval M b a)%Q.
